@@ -227,8 +227,11 @@ def write_evidence(prop, res, infos, checker_cmd):
         "wall_s": round(time.time() - res.t0, 2),
         "violations": len(res.violations),
     }
-    os.makedirs(os.path.join(V.VERIF, "evidence"), exist_ok=True)
-    with open(os.path.join(V.VERIF, "evidence", f"{prop.pid}.json"), "w") as f:
+    # evidence/ describes runs against /repo itself; a run against another tree (VERIF_REPO, used for
+    # trying seeded changes in a scratch worktree) leaves it alone
+    evdir = os.path.join(V.VERIF, "evidence") if os.path.realpath(V.REPO) == "/repo" else os.path.join(V.BUILD, "evidence-other-tree")
+    os.makedirs(evdir, exist_ok=True)
+    with open(os.path.join(evdir, f"{prop.pid}.json"), "w") as f:
         json.dump(ev, f, indent=1)
 
 
